@@ -90,6 +90,11 @@ class Adapter:
             except OverflowError:
                 got = "OverflowError"
             return None if got == e["res"] else "pid_exists(%r) -> %s, specification predicts %s" % (n, got, e["res"])
+        if op == "new":
+            pr = ps.Process(e["pid"])
+            self.objs[e["o"]] = pr
+            self.keep.append(pr)
+            return None
         if op == "it_start":
             k = e["k"]
             self.gens[k] = ps.process_iter(attrs=["pid"]) if k == 2 else ps.process_iter()
@@ -140,15 +145,7 @@ class Adapter:
         raise core.Machinery("unknown op %r" % op)
 
 
-_T = {}
-
-
-def template():
-    if "ps" not in _T:
-        w = World()
-        ps = import_psutil(w)
-        _T["w"], _T["ps"] = w, ps
-    return _T["w"], _T["ps"]
+from harness.tmpl import template  # noqa: E402
 
 
 def run_events(job):
@@ -180,11 +177,19 @@ def edge_class(g, ei):
     if op == "pid_exists":
         return (op, e["n"], e["res"])
     if op == "is_running":
-        return (op, e["res"], len(st[3]) > 0)
+        ob = st[4][e["o"] - 1]
+        pid = ob["pid"]
+        pids = sorted(int(k) for k in st[2]) if isinstance(st[2], dict) else None
+        gp = st[2][str(pid)] if isinstance(st[2], dict) else st[2][pid - 1]
+        tb = st[0][0]
+        row = tb[str(pid)] if isinstance(tb, dict) else tb[pid - 1]
+        return (op, e["res"], ob["gone"], ob["reused"], row["inc"] == ob["forInc"], gp == e["o"],
+                pid in st[3], any(x["phase"] == "run" for x in (st[6].values() if isinstance(st[6], dict) else st[6])))
     return (op,)
 
 
-DUMPS = [("dump-1iter", lambda: consts(maxobj=2, maxinc=2, maxup=1, probe=(0, 7, 97, 98, 99)), 4),
+DUMPS = [("dump-1pid-1iter-full", lambda: consts(pids=(1,), maxobj=3, maxinc=2, maxup=1, tids=(), probe=()), None),
+         ("dump-1iter", lambda: consts(maxobj=2, maxinc=2, maxup=1, probe=(0, 7, 97, 98, 99)), 4),
          ("dump-2iter", lambda: consts(pids=(1,), iters=(1, 2), maxobj=2, maxinc=2, maxup=1, tids=(), probe=()), 3)]
 
 
@@ -246,16 +251,22 @@ def check(ctx):
                    props=["C04_PidExists"])
     if rr.violated != "C04_PidExists":
         raise core.Machinery("specification no longer exposes the pid_exists() overflow defect of 7.0.0")
-    # (2) tours
+    replay_all(ctx, thorough)
+
+
+def replay_all(ctx, thorough, vacuity=True):
+    """(2) tours and (3) simulation of ProcIter.tla into the real code; also
+    used by the C02 check (is_running() truth under process_iter() traffic)."""
     ops = set()
     for name, rd, pc in warm(ctx):
         g = graph.from_dump(rd)
         jobs = replay.tour_jobs(ctx, g, None if thorough else pc, edge_class, maxlen=50)
+        ctx.cov.setdefault('graphs', {})[name] = {'states': len(g.states), 'transitions': len(g.edges)}
         ops |= set(replay.run_jobs(ctx, name, [(evs,) for _, evs in jobs], run_events, sig_of,
                                    "replayed (transition tour)", nontrivial=lambda e: not e["op"].startswith("k_")))
     need = {"it_step:yield", "it_finish:None", "it_close:None", "cache_clear:None", "is_running:True",
             "is_running:False", "pid_exists:True", "pid_exists:False", "pids:.."}
-    if need - ops:
+    if vacuity and need - ops:
         raise core.Machinery("vacuity: never replayed: %s" % sorted(need - ops))
     # (3) deep random behaviours: 3 PIDs, 2 iterators
     cs = consts(pids=(1, 2, 3), iters=(1, 2), maxobj=9, maxinc=7, maxup=4, tids=(5, 6), probe=(0, 7, 97, 98, 99))
